@@ -5,6 +5,7 @@ package main
 // and gives tests virtual clients that talk to it through the real gRPC session loop.
 
 import (
+	"github.com/tinode/chat/server/zzverif/vsync"
 	"context"
 	"encoding/base64"
 	"encoding/json"
@@ -109,6 +110,17 @@ func vfProcessInit() {
 			}
 			if t := globals.hub.topicGet(tn); t != nil && !t.isInactive() {
 				vsched.Report("C03:topic-accepts-publishes-while-being-deleted", "store.Topics.Delete("+vfTopicKindSafe(tn)+") starts while the loaded topic is neither paused nor marked deleted: a publish handled during the delete is accepted")
+			}
+		}
+		// C01 "no number is issued twice": a topic instance which the hub has unregistered can be
+		// replaced by a fresh instance loaded from the store, so from that moment on it must not accept
+		// publishes any more. Asserted where the hub forgets the instance.
+		vsync.OnMapDelete = func(m *vsync.Map, k, old any) {
+			if !vsched.Active() || globals.hub == nil || m != globals.hub.topics {
+				return
+			}
+			if t, ok := old.(*Topic); ok && t != nil && !t.isInactive() {
+				vsched.Report("C01:unregistered-topic-accepts-publishes", "the hub unregisters topic "+vfTopicKindSafe(fmt.Sprint(k))+" while the instance is neither paused nor marked deleted: it keeps numbering messages next to the instance loaded in its place")
 			}
 		}
 		memdb.OnCall = func(name string) {
